@@ -150,12 +150,12 @@ func runCodecHist(out *vio.Out, c Case) {
 		}
 	}
 	type kept struct {
-		op           string
-		arg, arg2    []int
+		op            string
+		arg, arg2     []int
 		first, first2 []int
-		bytes        []byte
-		str          string
-		info         *name.Info
+		bytes         []byte
+		str           string
+		info          *name.Info
 	}
 	var all []*kept
 	bad := false
